@@ -133,6 +133,9 @@ def do_reads(obj, case, lines, who, nreads, seed, log, first=None):
 def run_workload(case, d, log, label_child=None):
     """The workload itself; `log(ev, **kw)` records events; label_child(role) is called first thing in each child."""
     path, lines = write_files(case, d)
+    if case.get("global_start_method"):
+        # the application has chosen another default start method for multiprocessing; it still forks its readers
+        multiprocessing.set_start_method(case["global_start_method"], force=True)
     obj = open_object(case, path, lines)
     obj.open()
     nreads = case.get("reads", 60)
@@ -264,6 +267,24 @@ def run_workload(case, d, log, label_child=None):
         if sub:
             os.waitpid(sub, 0)
 
+    tight = None
+    if case.get("fd_tight") and style != "mp" and shared_it is None and side is None and not case.get("other_object"):
+        # the forking process has no free descriptor left (RLIMIT_NOFILE reached): a child can replace the inherited handle by
+        # its own one (close, then open) but cannot hold both for a moment. One spare slot is kept for the child's own log
+        # descriptor (harness business) and given up by the child first thing.
+        import resource
+        soft, hard = resource.getrlimit(resource.RLIMIT_NOFILE)
+        spare = os.open("/dev/null", os.O_RDONLY)
+        top = max(int(x) for x in os.listdir("/proc/self/fd"))
+        resource.setrlimit(resource.RLIMIT_NOFILE, (top + 40, hard))
+        filler = []
+        try:
+            while True:
+                filler.append(os.open("/dev/null", os.O_RDONLY))
+        except OSError:
+            pass
+        tight = (spare, filler, soft, hard)
+        log("descriptor_table_full", open=len(filler))
     if style == "mp":
         ctx = multiprocessing.get_context("fork")
         for i in range(K):
@@ -276,12 +297,19 @@ def run_workload(case, d, log, label_child=None):
             if pid == 0:
                 code = 0
                 try:
+                    if tight:
+                        os.close(tight[0])
                     child_main(i)
                 except BaseException as e:
                     log("child_exception", who=f"child{i}", exc=f"{type(e).__name__}: {e}")
                     code = 1
                 os._exit(code)
             kids.append(pid)
+    if tight:
+        import resource
+        for fd_ in tight[1] + [tight[0]]:
+            os.close(fd_)
+        resource.setrlimit(resource.RLIMIT_NOFILE, (tight[2], tight[3]))
     if side is not None:
         # the children are forked; the thread may go on, finishes its read and stops before the main thread reads itself
         # (two threads of ONE process sharing the handle is not what the property is about)
